@@ -301,10 +301,10 @@ pub fn replay(v: &Value) -> Vec<Failure> {
     if let Some(t) = ts.iter().find(|t| t.name == name) {
         let input = if v.get("input_hex").is_some() { unhex(v["input_hex"].as_str().unwrap_or("")) } else { input_from_gen(t, &v["gen"]) };
         if let Err(p) = guard(|| (t.call)(&input)) {
-            out.push(Failure { signature: format!("C20:panic:{}:{}", crate::props::c04::call_site(&p.location), panic_class(&p.message)), case: v.clone(), detail: format!("{}: {} at {}", t.name, p.message, p.location) });
+            out.push(Failure { signature: format!("C20:panic:{}:{}", crate::props::c04::call_site(&p.location), panic_class(&p.message)), case: v.clone(), detail: format!("{}: {} at {}", t.name, p.message, p.location), hash: 0 });
         }
     } else {
-        out.push(Failure { signature: "C20:bad-replay-file".into(), case: v.clone(), detail: "unknown target".into() });
+        out.push(Failure { signature: "C20:bad-replay-file".into(), case: v.clone(), detail: "unknown target".into(), hash: 0 });
     }
     std::env::set_current_dir("/").unwrap();
     let _ = std::fs::remove_dir_all(&root);
